@@ -227,7 +227,9 @@ CLAIMED = {
              "level caches and threads are not proved; histories of 2-5 calls on ONE parser (strict aborts, sources "
              "that raise, table text, pre, RCDATA, foreign content, fragments) are compared call by call with fresh "
              "parsers, and histories of calls on ONE HTMLSerializer (strict aborts inside raw-text elements, failing or "
-             "abandoned token sources) with fresh serializers; thorough adds a thread soak. One fix in /repo (the leak "
+             "abandoned token sources) with fresh serializers, and pairs of threads inside html5lib.parse()/parseFragment() "
+             "at the same time (sources that hand the turn to each other) with the same parses alone; thorough adds a "
+             "thread soak. One fix in /repo (the leak "
              "quoted in the property).",
         design_ref="DESIGN.md 3 C12",
         note="The frame argument is syntactic (no __setattr__, checked); per-parse objects (nodes, tokens) are outside "
